@@ -32,12 +32,85 @@ inductive Val where
   | cons (h t : Val)
   | none
   | some (v : Val)
+  | str (cs : List Nat)                 -- a `String` (its chars as symbol numbers)
+  | tok (kind : Nat) (text : List Nat)  -- a `token.rs Token`
+  | num (n : Nat)                       -- a `u8` that is not an input symbol (`TokenKind`)
   deriving DecidableEq, Repr, Inhabited
 
 /-- A `Vec` of values. -/
 def Val.ofList : List Val → Val
   | [] => .nil
   | v :: vs => .cons v (Val.ofList vs)
+
+/-- the elements of a `Vec` value; anything else is read as a one-element vector (harness adapter `as_list`) -/
+def Val.asList : Val → List Val
+  | .nil => []
+  | .cons h t => h :: Val.asList t
+  | v => [v]
+
+/-- `Vec::push` on a `Vec` value -/
+def Val.snoc : Val → Val → Val
+  | .nil, v => .cons v .nil
+  | .cons h t, v => .cons h (Val.snoc t v)
+  | r, _ => r
+
+/-! ### `token.rs`
+
+`Token { kind, text }` with a non-empty text (`Token::new` asserts it).  `Option.none` in the `?` functions is the
+panic of the real function. -/
+
+structure Token where
+  kind : Nat
+  text : List Nat
+  deriving DecidableEq, Repr
+
+/-- `Token::new`: `assert!(!text.is_empty())` -/
+def Token.new? (kind : Nat) (text : List Nat) : Option Token :=
+  if text.isEmpty then Option.none else Option.some ⟨kind, text⟩
+
+/-- `Token::try_as_single_char` -/
+def Token.trySingleChar (t : Token) : Option Nat :=
+  match t.text with
+  | [c] => Option.some c
+  | _ => Option.none
+
+/-- `Token::demand_single_char` = `try_as_single_char().expect(..)`: `none` is the panic -/
+def Token.demandSingleChar? (t : Token) : Option Nat := t.trySingleChar
+
+/-- `Token::to_text`, `Token::as_str`, `Display for Token`: all three are the text -/
+def Token.toText (t : Token) : List Nat := t.text
+
+/-! ### The harness's projections of its one value type onto the argument types of the typed combiners
+
+(`harness/src/bin/c20.rs as_char / as_str / as_text / as_opt_str / as_opt_char / as_tok`; total, so that every
+expression tree is well typed on the Rust side; `25` is the letter `z`). -/
+
+def Val.asChar : Val → Nat
+  | .sym k => k
+  | _ => 25
+
+def Val.asStr : Val → List Nat
+  | .str s => s
+  | .sym k => [k]
+  | .tok _ t => t
+  | _ => []
+
+/-- a non-empty text (for `Token::new`) -/
+def Val.asText (v : Val) : List Nat := if v.asStr.isEmpty then [25] else v.asStr
+
+def Val.asOptStr : Val → Option (List Nat)
+  | .none => Option.none
+  | .some v => Option.some v.asStr
+  | v => Option.some v.asStr
+
+def Val.asOptChar : Val → Option Nat
+  | .none => Option.none
+  | .some v => Option.some v.asChar
+  | v => Option.some v.asChar
+
+def Val.asTok : Val → Token
+  | .tok k t => ⟨k, t⟩
+  | v => ⟨0, v.asText⟩
 
 inductive Res where
   | ok (v : Val) (pos : Nat)
@@ -51,15 +124,58 @@ abbrev P := Nat → Res
 
 /-! ## Function parameters of the combinators (small closed families, shared with the harness) -/
 
-/-- `and.rs` combiners: `TupleCombiner`, `KeepLeftCombiner`, `KeepRightCombiner`. -/
+/-- `and.rs` combiners (`Combiner::combine`): `TupleCombiner`, `KeepLeftCombiner`, `KeepRightCombiner`,
+`IgnoringBothCombiner` (`ignore`), the blanket impl for `Fn(L, R) -> O` (`swap`: the closure `|a, b| Pair(b, a)`),
+`VecCombiner` on two items (`vec2`) and on two vectors (`vecCat`), and the five impls of `StringCombiner`:
+`(String, String)` (`strCat`), `(Option<String>, String)` (`optStrCat`), `(char, char)` (`chars`),
+`(char, Option<char>)` (`charOpt`), `(char, Vec<char>)` (`charVec`). -/
 inductive Cmb where
   | tuple | left | right
+  | ignore | swap | vec2 | vecCat | strCat | optStrCat | chars | charOpt | charVec
   deriving DecidableEq, Repr
 
 def Cmb.app : Cmb → Val → Val → Val
   | .tuple, a, b => .pair a b
   | .left, a, _ => a
   | .right, _, b => b
+  | .ignore, _, _ => .unit
+  | .swap, a, b => .pair b a
+  | .vec2, a, b => Val.ofList [a, b]
+  | .vecCat, a, b => Val.ofList (a.asList ++ b.asList)
+  | .strCat, a, b => .str (a.asStr ++ b.asStr)
+  | .optStrCat, a, b =>
+    match a.asOptStr with
+    | Option.some l => .str (l ++ b.asStr)
+    | Option.none => .str b.asStr
+  | .chars, a, b => .str [a.asChar, b.asChar]
+  | .charOpt, a, b =>
+    match b.asOptChar with
+    | Option.some r => .str [a.asChar, r]
+    | Option.none => .str [a.asChar]
+  | .charVec, a, b => .str (a.asChar :: b.asList.map Val.asChar)
+
+/-- `many.rs` many-combiners (`ManyCombiner::seed` / `accumulate`, and `O::default()` for `many_allow_none`):
+`VecManyCombiner`, `StringManyCombiner` over `char` (`str`) and over `Token` (`tokStr`), `IgnoringManyCombiner`. -/
+inductive MCmb where
+  | vec | str | tokStr | ignore
+  deriving DecidableEq, Repr
+
+def MCmb.seed : MCmb → Val → Val
+  | .vec, v => .cons v .nil
+  | .str, v => .str [v.asChar]
+  | .tokStr, v => .str v.asTok.toText
+  | .ignore, _ => .unit
+
+def MCmb.acc : MCmb → Val → Val → Val
+  | .vec, r, v => r.snoc v
+  | .str, r, v => .str (r.asStr ++ [v.asChar])
+  | .tokStr, r, v => .str (r.asStr ++ v.asTok.toText)
+  | .ignore, _, _ => .unit
+
+def MCmb.dflt : MCmb → Val
+  | .vec => .nil
+  | .str | .tokStr => .str []
+  | .ignore => .unit
 
 /-- predicates for `filter` -/
 inductive Pred where
@@ -80,15 +196,27 @@ inductive FM where
 def FM.app : FM → Val → Option Val
   | .dupIf k, v => if v == .sym k then Option.some (.pair v v) else Option.none
 
-/-- functions for `map` (`toUnit` is also `map_to_unit`) -/
+/-- functions for `map` (`toUnit` is also `map_to_unit`); `charStr` is `String::from(char)` (the mapper of
+`text/strings.rs one_char_to_str`); `mkTok k` is `|v| Token::new(k, text)`, and the remaining four read a `Token`:
+`Token::kind`, `Token::as_str`, `Token::try_as_single_char`, `Display` (`to_string`). -/
 inductive MapFn where
   | toUnit | wrap | dup
+  | charStr | mkTok (kind : Nat) | tokKind | tokText | tokChar | tokShow
   deriving DecidableEq, Repr
 
 def MapFn.app : MapFn → Val → Val
   | .toUnit, _ => .unit
   | .wrap, v => .some v
   | .dup, v => .pair v v
+  | .charStr, v => .str [v.asChar]
+  | .mkTok k, v => .tok k v.asText
+  | .tokKind, v => .num v.asTok.kind
+  | .tokText, v => .str v.asTok.toText
+  | .tokChar, v =>
+    match v.asTok.trySingleChar with
+    | Option.some c => .some (.sym c)
+    | Option.none => .none
+  | .tokShow, v => .str v.asTok.toText
 
 /-- mappers for `and_then`: keep the value if it is `sym keep`, else fail with `(code, fatal)` -/
 structure AT where
@@ -188,6 +316,26 @@ def manyP (len : Nat) (allowNone : Bool) (p : P) : P := fun pos =>
   match p pos with
   | .ok v q => manyLoop p (len + 3) q [v]
   | .soft e q => if allowNone then .ok .nil q else .soft e q
+  | .fatal e q => .fatal e q
+  | .hang => .hang
+
+/-- The `loop` of `many.rs ManyParser::parse` with an arbitrary `ManyCombiner`: `res` is `result`, updated by
+`accumulate`.  Fuel as in `manyLoop`. -/
+def manyLoopC (mc : MCmb) (p : P) : Nat → Nat → Val → Res
+  | 0, _, _ => .hang
+  | fuel + 1, pos, res =>
+    match p pos with
+    | .ok v q => manyLoopC mc p fuel q (mc.acc res v)
+    | .soft _ q => .ok res q
+    | .fatal e q => .fatal e q
+    | .hang => .hang
+
+/-- `many.rs ManyParser::parse` (`many` / `many_allow_none` with the combiner `mc`): the result is seeded from the
+first element; no element and `allow_none` gives `O::default()`. -/
+def manyCP (len : Nat) (mc : MCmb) (allowNone : Bool) (p : P) : P := fun pos =>
+  match p pos with
+  | .ok v q => manyLoopC mc p (len + 3) q (mc.seed v)
+  | .soft e q => if allowNone then .ok mc.dflt q else .soft e q
   | .fatal e q => .fatal e q
   | .hang => .hang
 
@@ -410,6 +558,7 @@ inductive PExpr where
   | or2 (a b : PExpr) | or3 (a b c : PExpr)
   | orNoBox (l r : PExpr)
   | many (allowNone : Bool) (e : PExpr)
+  | manyC (mc : MCmb) (allowNone : Bool) (e : PExpr)
   | manyCtx (allowNone : Bool) (e : PExpr)
   | filter (pr : Pred) (e : PExpr)
   | filterMap (f : FM) (e : PExpr)
@@ -438,7 +587,10 @@ def oneOfP (inp : List Nat) (ks : List Nat) : P := filterP (.inSyms ks) (anyP in
 
 /-- The interpreter.  `lazy`, `boxed`, `no_context`, `map_ctx` are the identity on results;
 `iif` is `iif_ctx.rs` with the flag already set; `manyStr k` is `text/strings.rs many_str(|c| c == k)`
-(= `read_p().filter(..).many(..)`), its `String` read as the list of its symbols. -/
+(= `read_p().filter(..).many(..)`), its `String` read as the list of its symbols; `manyC mc` is
+`many` / `many_allow_none` with the many-combiner `mc` (`many` itself is the `VecManyCombiner` instance, see
+`RbThm.C20Val.manyCP_vec`).  Two library functions are compositions and have no constructor of their own:
+`text/strings.rs one_char_to_str(k)` = `oneStrE k` and `many_str_with_combiner(|c| c == k, mc)` = `manyStrWithE mc k`. -/
 def run : PExpr → List Nat → P
   | .any, inp => anyP inp
   | .peekAny, inp => peekAnyP inp
@@ -454,6 +606,7 @@ def run : PExpr → List Nat → P
   | .or3 a b c, inp => orBoxP (run a inp) [run b inp, run c inp]
   | .orNoBox l r, inp => orNoBoxP (run l inp) (run r inp)
   | .many an e, inp => manyP inp.length an (run e inp)
+  | .manyC mc an e, inp => manyCP inp.length mc an (run e inp)
   | .manyCtx an e, inp => manyP inp.length an (run e inp)
   | .filter pr e, inp => filterP pr (run e inp)
   | .filterMap f e, inp => filterMapP f (run e inp)
@@ -477,5 +630,12 @@ def run : PExpr → List Nat → P
   | .flatten p q, inp => flattenP (run p inp) (run q inp)
   | .lazy e, inp => run e inp
   | .iif b l r, inp => if b then run l inp else run r inp
+
+/-- `text/strings.rs one_char_to_str(k)` = `one_p(k).map(String::from)` -/
+def oneStrE (k : Nat) : PExpr := .map .charStr (.one k)
+
+/-- `text/strings.rs many_str_with_combiner(|c| c == k, mc)` = `read_p().filter(..).many(mc)`
+(`many_str` is the instance `mc = StringManyCombiner`) -/
+def manyStrWithE (mc : MCmb) (k : Nat) : PExpr := .manyC mc false (.one k)
 
 end RbModel.Pc
